@@ -58,8 +58,15 @@ def fold_instances(tier, seed, start_id=1):
     for lo in (I(0), I(1), I(2)):
         for hi in (I(1), I(3)):
             filtersets.append([(">=", lo), ("<=", hi)]); filtersets.append([(">", lo), ("<", hi)]); filtersets.append([(">=", lo), (">", hi)])
+    # every unordered pair of operators on the same fold count (how the limits of several filters combine)
+    pairsets = []
+    def argfor(op, n): return L([I(n), I(n + 2)]) if op in ("one_of", "not_one_of") else I(n)
+    for a in range(len(OPS)):
+        for b in range(a, len(OPS)):
+            for x, y in ((1, 2), (2, 2), (2, 3), (0, 1), (3, 1)):
+                pairsets.append([(OPS[a], argfor(OPS[a], x)), (OPS[b], argfor(OPS[b], y))])
     for name, cextra, body_props, body_edges, siblings in decorations():
-        for fs in filtersets:
+        for fs in filtersets + (pairsets if name in ("nothing", "count_output", "tag_sibling_fold") else []):
             for under in ("root", "optional"):
                 if under == "optional" and tier == "quick" and rng.random() < 0.6: continue
                 args = {}; filters = []
